@@ -34,11 +34,25 @@ def stmt_calls(st: ast.stmt, suffix: str) -> list[ast.Call]:
     return out
 
 
+# helpers of the repository that can only return an error value (return annotation is one of the error classes, nothing else), filled
+# by context.Ctx from the current source: `return _duplicate_parameter_error(...)` constructs an error just like `return ParseError(...)`
+ERROR_ONLY_HELPERS: set[str] = set()
+
+
+def register_error_helpers(functions: Iterable[FuncInfo]) -> None:
+    ERROR_ONLY_HELPERS.clear()
+    for f in functions:
+        ann = ast.unparse(f.node.returns).strip("'\"") if f.node.returns is not None else ""
+        if ann and ann.rsplit(".", 1)[-1] in ERROR_CLASSES:
+            ERROR_ONLY_HELPERS.add(f.name)
+
+
 def constructs_error(e: ast.AST | None) -> bool:
     if e is None:
         return False
     for c in calls_in(e):
-        if call_name(c).rsplit(".", 1)[-1] in ERROR_CLASSES:
+        last = call_name(c).rsplit(".", 1)[-1]
+        if last in ERROR_CLASSES or last in ERROR_ONLY_HELPERS:
             return True
     return False
 
@@ -287,3 +301,37 @@ def resolved_text(e: ast.AST, fn: ast.AST, depth: int = 3) -> str:
                 nxt |= names_in(v)
         frontier = nxt
     return " <- ".join(out)
+
+
+def region(ix: Any, f: FuncInfo, depth: int = 2) -> list[FuncInfo]:
+    """f and the private helpers it delegates to (extract-helper refactorings move code, not behaviour): functions of the same module
+    or class whose name starts with `_`, called from f by plain name / self. / cls. / ClassName. , transitively up to `depth` levels.
+    Rules that ask "does this mechanism exist in f" search the region; rules about paths stay within one function and treat a call to
+    a region helper as the place where the helper's effects happen."""
+    out = [f]
+    seen = {f.qual}
+    frontier = [f]
+    for _ in range(depth):
+        nxt: list[FuncInfo] = []
+        for g in frontier:
+            names = set()
+            for c in calls_in(g.node):
+                cn = call_name(c)
+                last = cn.rsplit(".", 1)[-1]
+                head = cn.rsplit(".", 1)[0] if "." in cn else ""
+                if last.startswith("_") and not last.startswith("__") and (head in ("", "self", "cls") or (g.cls is not None and head == g.cls.name)
+                                                                         or head[:1].isupper()):
+                    names.add(last)
+            for h in ix.all_functions:
+                if h.name in names and h.qual not in seen and h.module is g.module and (h.cls is None or g.cls is None or h.cls is g.cls or True):
+                    seen.add(h.qual)
+                    out.append(h)
+                    nxt.append(h)
+        frontier = nxt
+    return out
+
+
+def region_walk(ix: Any, f: FuncInfo, depth: int = 2) -> Iterator[tuple[FuncInfo, ast.AST]]:
+    for g in region(ix, f, depth):
+        for n in ast.walk(g.node):
+            yield g, n
